@@ -419,6 +419,9 @@ func (an *Analysis) computePaths3(fn *ssa.Function, subst, substV map[int]*Term,
 		}()
 		w.walk(fn.Blocks[0], nil, st)
 	}()
+	if an.NormPanics && w.out.Unproven == "" {
+		normalisePanicGuards(w.out)
+	}
 	return w.out
 }
 
